@@ -8,9 +8,21 @@ import sleap_io as sio
 
 
 def hungarian_matching(cost_matrix: np.ndarray) -> List[Tuple[int, int]]:
-    """Match new instances to existing tracks using Hungarian matching."""
-    row_ids, col_ids = linear_sum_assignment(cost_matrix)
-    return row_ids, col_ids
+    """Match new instances to existing tracks using Hungarian matching.
+
+    Entries with infinite cost (e.g. a track without candidates in the window) are
+    never matched: instead of failing on an infeasible cost matrix, the largest
+    possible number of finite-cost pairs with the lowest total cost is returned.
+    """
+    cost_matrix = np.asarray(cost_matrix, dtype=float)
+    finite = np.isfinite(cost_matrix)
+    if finite.all():
+        row_ids, col_ids = linear_sum_assignment(cost_matrix)
+        return row_ids, col_ids
+    big = 2.0 * np.abs(cost_matrix[finite]).sum() + 1.0
+    row_ids, col_ids = linear_sum_assignment(np.where(finite, cost_matrix, big))
+    keep = finite[row_ids, col_ids]
+    return row_ids[keep], col_ids[keep]
 
 
 def greedy_matching(cost_matrix: np.ndarray) -> List[Tuple[int, int]]:
